@@ -70,14 +70,18 @@ def run_single(req, timeout):
     Answers that are too deeply nested for python's json are reduced to their timing fields."""
     r = {k: v for k, v in req.items() if not k.startswith("_")}
     r["_time"] = True
-    p = subprocess.Popen([vlib.VH], stdin=subprocess.PIPE, stdout=subprocess.PIPE, stderr=subprocess.PIPE, text=True, env=vlib.env)
+    p = subprocess.Popen([vlib.VH], stdin=subprocess.PIPE, stdout=subprocess.PIPE, stderr=subprocess.PIPE, env=vlib.env)
     try:
-        out, err = p.communicate(json.dumps(r) + "\n", timeout=timeout)
+        out, err = p.communicate((json.dumps(r) + "\n").encode("utf-8"), timeout=timeout)
     except subprocess.TimeoutExpired:
         cpu = _proc_cpu(p.pid)
         p.kill()
-        p.communicate()
+        try:
+            p.communicate(timeout=30)
+        except Exception:
+            pass
         return {"crash": "timeout", "kind": "timeout"}, (cpu if cpu is not None else 0.0)
+    out, err = out.decode("utf-8", "replace"), err.decode("utf-8", "replace")
     if p.returncode != 0:
         err = (err or "")[-400:]
         kind = "stack-overflow" if "overflowed its stack" in err else "abort"
@@ -93,7 +97,18 @@ def run_single(req, timeout):
     return a, (cpu / 1000.0 if cpu is not None else (a.get("_us") or 0) / 1e6)
 
 
+_STAGE_CACHE = {}
+
+
 def locate_stage(req, timeout):
+    """memoised per (op, input, target)"""
+    key = (req["op"], req.get("prql") or req.get("src") or req.get("json"), req.get("target"))
+    if key not in _STAGE_CACHE:
+        _STAGE_CACHE[key] = _locate_stage(req, timeout)
+    return _STAGE_CACHE[key]
+
+
+def _locate_stage(req, timeout):
     """for a source request that crashed / timed out: the first stage of lex -> pl -> (fmt) -> rq -> compile that does so alone"""
     op = req["op"]
     if op in ("pl_json_to_sql", "rq_json_to_sql"):
@@ -165,6 +180,9 @@ class Explorer:
                     continue
                 self.outcomes["crash"] += 1
                 kind = a2.get("kind")
+                inp = r.get("prql") or r.get("src") or ""
+                if kind == "stack-overflow" and inp and len(inp) < 300:
+                    kind = "infinite-recursion"      # a tiny program cannot be deep: the recursion does not depend on the input size
                 cid = f"superpolynomial-time:{stage}" if kind == "timeout" else f"{kind}:{stage}"
                 self.record_failure(cid, f"{op}: process {kind} in stage {stage} ({a2.get('stderr', '')[:120]})", r, {**a, **a2})
             elif "garbled" in a and str(a["garbled"]).startswith("{"):
@@ -209,6 +227,25 @@ def src_reqs(src, gen, ops=SRC_OPS, target=None, time_=False):
         out.append(r)
     return out
 
+
+# tiny directed programs: recursion through definitions, self reference, degenerate uses of special forms
+DIRECTED = [
+    "let f = x -> f x\nfrom t | select {y = f a}",
+    "let f = x -> (g x)\nlet g = x -> (f x)\nfrom t | select (f a)",
+    "let f = x -> f\nfrom t | select (f 1)",
+    "let f = x -> (x | f)\nfrom t | f",
+    "let x = x\nfrom x", "let x = (from x)\nfrom x", "let a = (from b)\nlet b = (from a)\nfrom a",
+    "from t | select {a = a}", "from t | derive {a = b, b = a}",
+    "from t | loop (loop (take 1))", "from t | loop (filter a > 0 | loop (derive b = a))",
+    "*", "let x = *", "from t | select t.*.*", "from t | group a (-> take 1)", "from t | filter (a | -> in [1])",
+    "from t | sort (-> 2)", "from [{a = 1}, b]", "from []", "from [{}]", "from t | select {}", "from t | aggregate {}", "from t | group {} (take 1)",
+    "from t | join t (==a) | select t.a", "from t | window rows:..  (derive x = sum a)", "from t | take 0", "from t | take ..", "from t | take 9223372036854775807..9223372036854775808",
+    "from t | select 99999999999999999999", "from t | select 1e400", "from t | select 0x", "from t | select 0b2", "from t | select @2020-13-45", "from t | select @25:61", "from t | select 2hours + 1",
+    "prql version:\"99\"\nfrom t", "prql version:\"x\"\nfrom t", "prql target:sql.any\nprql target:sql.any\nfrom t", "prql\nfrom t", "module m { from t }", "module m { let x = 1 }\nfrom m.x",
+    "type x = int\nfrom t", "let f = a:1 b -> a + b\nfrom t | select (f b:2 3)", "from t | select (a | as)", "from t | select (as int)", "from t | select s\"{}\"", "from t | select f\"{a:}}\"",
+    "from t | select case []", "from t | select (case [true => 1] | case [true => 2])", "from t | derive x = (from u)", "from (from (from t))", "from t | append (from t | append t)",
+    "from t | select `a.b`.`c`", "from `` | select ``", "from t | select `*`", "from t | select this", "from t | select that", "from t | select {this.*, that.*}", "from t | select !{}",
+]
 
 PUNCT = ["(", ")", "{", "}", "[", "]", "|", ",", "=", "==", "->", "=>", "..", "-", "+", "*", "!", "??", ".", ":", "@", "\"", "'", "`", "\\", "\n", "s\"", "f\"", "$1", "#", "0x", "1e", "_"]
 MULTI = ["é", "€", "😀", "\u2028", "ß", "中", "\u0301", "\ufeff", "\x00", "\x7f", "\u200b"]
@@ -401,6 +438,11 @@ def run(ctx):
     ctx.coverage_extra["short_strings"] = {"count": len(strs), "alphabet": ALPHABET, "max_len": 4 if thorough else 3, "seconds": round(time.time() - t0, 1)}
     ctx.sample({"family": "short-string", "input": "{|'", "entry_points": [o for o, _ in SRC_OPS]})
 
+    reqs = []
+    for d_ in DIRECTED:
+        reqs += src_reqs(d_, "directed")
+    ex.run(reqs, "i-directed", timeout=300)
+
     # ---- (ii) corpus, dialect sweep, mutants --------------------------------------------------
     t0 = time.time()
     reqs = []
@@ -487,8 +529,9 @@ def run(ctx):
     for f, op, m_, tm, n_, tn in slow:
         stage = STAGE_OF[op]
         if op in ("rq", "compile", "fmt"):
-            # attribute to the parser when parsing alone already shows it
-            if any(s[0] == f and s[1] == "pl" for s in slow):
+            # attribute to the parser when parsing alone is (nearly) as expensive on the same input
+            tp = times.get((f, "pl"), {}).get(n_)
+            if any(s[0] == f and s[1] == "pl" for s in slow) or (tp is not None and (tp < 0 or tp >= 0.5 * abs(tn))):
                 stage = "parser"
         cid = f"superpolynomial-time:{stage}"
         if (cid, f) in seen_slow:
